@@ -158,13 +158,17 @@ def focusing_lens(rnd, finite=False, apertures=False, wavelengths=None):
     o.add_surface(index=idx)
     o.set_aperture("EPD", 1.0)
     ft = "object_height" if finite else "angle"
-    o.set_field_type(ft)
     mf = rnd.uniform(0.3, 2.0)
+    if finite and int(mf * 1e6) % 2 == 0:
+        ft = "angle"            # a finite object whose fields are given as angles: valid, and the working
+                                # F-number is that of the finite conjugates all the same
+    o.set_field_type(ft)
     o.add_field(y=0.0)
     o.add_field(y=mf)
     for i, w in enumerate(wavelengths):
         o.add_wavelength(w, is_primary=(i == len(wavelengths) // 2))
-    meta = {"elements": nel, "finite_object": finite, "stop": stop_at, "max_field": mf, "apertures": apertures}
+    meta = {"elements": nel, "finite_object": finite, "stop": stop_at, "max_field": mf, "apertures": apertures,
+            "field_type": ft}
     return o, meta
 
 
